@@ -66,10 +66,11 @@ def kani(P, u, prop):
             arms.append("(%s, %s) => %s," % (P.pat(v, "x"), P.pat(v, "y"), conj(ts)))
         u.kani_oracle.append("pub fn default_ok(d: &TI) -> bool {\n    let e: TI = %s;\n    match (d, &e) { %s _ => false }\n}\n"
                              % (exp, " ".join(arms)))
-    new = 'assert!(oracle::default_ok(&<TI>::new()), "contract: new() == designated value");' if P.s("default", "new") else ""
+    new = 'crate::m::id_reset(); assert!(oracle::default_ok(&<TI>::new()), "contract: new() == designated value");' if P.s("default", "new") else ""
     u.kani_harness.append("""
 #[kani::proof]
 pub fn default_h() {
+    crate::m::id_reset();
     let d = <TI as Default>::default();
     assert!(oracle::default_ok(&d), "contract: default() == designated value");
     %s
@@ -77,6 +78,6 @@ pub fn default_h() {
 }
 """ % new)
     u.kani_obls["default_h"] = ("%s/%s/Default::default/contract" % (prop, P.pid), "default() (and new()) == %s" % exp)
-    rnew = 'chk(out, "new() is the designated value", oracle::default_ok(&<TI>::new()), true);' if P.s("default", "new") else ""
-    u.replay.append('chk(out, "default() is the designated value `%s`", oracle::default_ok(&<TI as Default>::default()), true); %s'
+    rnew = 'crate::m::id_reset(); chk(out, "new() is the designated value", oracle::default_ok(&<TI>::new()), true);' if P.s("default", "new") else ""
+    u.replay.append('crate::m::id_reset(); chk(out, "default() is the designated value `%s`", oracle::default_ok(&<TI as Default>::default()), true); %s'
                     % (exp.replace('"', "'"), rnew))
